@@ -154,9 +154,9 @@ def d2(chk, prog):
             if not got_nan and cn1 is not None and cn2 is not None:
                 tb.cell(same(t_add(T(cn1), T(cn2)), T(cn)), dict(method=method, cls=(j, b), identity="cn1 + cn2 == cn", cn1=repr(cn1), cn2=repr(cn2), cn=repr(cn)))
                 t1 = T(cn1)
-                if not (t1.lo >= 0 and provably_le(cn1, cn) and t1.integer):
-                    raise AnalysisError(f"C02-D2: cannot prove 0 <= cn1 <= cn for cn1 = {cn1!r}, cn = {cn!r} (no clip into [0, cn] recognised)")
-                tb.cell(True, dict())
+                tb.cell(t1.lo >= 0 and provably_le(cn1, cn) and t1.integer,
+                        dict(method=method, cls=(j, b), bound="0 <= cn1 <= cn not established: cn1 is not clipped into [0, cn] "
+                             "(a purity-rescaled BAF can leave [0, 1], giving cn1 > cn and cn2 < 0)", cn1=repr(cn1), cn=repr(cn)))
     tb.done("allelic copy numbers do not partition cn / are not missing exactly where BAF is missing and cn > 0")
     # the NaN mask on the clonal path: structural -- both stores use one mask, which is baf.isnull() & (cn > 0)
     stores = [n for n in own_nodes(fi.node) if isinstance(n, ast.Assign) and isinstance(n.targets[0], ast.Subscript)
